@@ -6,19 +6,20 @@
    (NO ACTION) and a link table L referencing A (CASCADE) and B (nullable, SET NULL).           *)
 EXTENDS CrudDef
 
-CONSTANTS OD, MaxRows, UniqB, NV
+CONSTANTS OD, MaxRows, UniqB, NV, NullB
 
 Meta == <<
   [go |-> "A", primary |-> TRUE, cols |-> <<"V">>, fks |-> <<>>, uniques |-> <<>>],
-  [go |-> "B", primary |-> TRUE, cols |-> <<"IdA", "W">>, fks |-> << [field |-> "IdA", ref |-> "A", ondelete |-> OD] >>,
+  [go |-> "B", primary |-> TRUE, cols |-> <<"IdA", "W">>, fks |-> << [field |-> "IdA", ref |-> "A", ondelete |-> OD, nullable |-> NullB] >>,
      uniques |-> IF UniqB THEN << <<"IdA">> >> ELSE << <<"IdA", "W">> >>],
-  [go |-> "C", primary |-> TRUE, cols |-> <<"IdB">>, fks |-> << [field |-> "IdB", ref |-> "B", ondelete |-> ""] >>, uniques |-> <<>>],
+  [go |-> "C", primary |-> TRUE, cols |-> <<"IdB">>, fks |-> << [field |-> "IdB", ref |-> "B", ondelete |-> "", nullable |-> FALSE] >>, uniques |-> <<>>],
   [go |-> "L", primary |-> FALSE, cols |-> <<"IdA", "IdB">>,
-     fks |-> << [field |-> "IdA", ref |-> "A", ondelete |-> "CASCADE"], [field |-> "IdB", ref |-> "B", ondelete |-> "SET NULL"] >>, uniques |-> <<>>] >>
+     fks |-> << [field |-> "IdA", ref |-> "A", ondelete |-> "CASCADE", nullable |-> FALSE], [field |-> "IdB", ref |-> "B", ondelete |-> "SET NULL", nullable |-> TRUE] >>, uniques |-> <<>>] >>
 Names == {"A", "B", "C", "L"}
 IdVals == {Null} \cup {IdStr(i) : i \in 1..MaxRows}
+\* NullB: B's foreign key is a nullable wrapper (may hold NULL, can be SET NULL) or a plain int64 (NOT NULL)
 RowsOf(n) == CASE n = "A" -> {<<v>> : v \in {"s:x", "s:y"} \cap (IF NV = 1 THEN {"s:x"} ELSE {"s:x", "s:y"})}
-               [] n = "B" -> {<<a, w>> : a \in IdVals \ {Null}, w \in IF NV = 1 THEN {"1"} ELSE {"1", "2"}}
+               [] n = "B" -> {<<a, w>> : a \in IF NullB THEN IdVals ELSE IdVals \ {Null}, w \in IF NV = 1 THEN {"1"} ELSE {"1", "2"}}
                [] n = "C" -> {<<b>> : b \in IdVals \ {Null}}
                [] n = "L" -> {<<a, b>> : a \in IdVals \ {Null}, b \in IdVals}
 
@@ -53,7 +54,7 @@ Next == \/ \E n \in Names : \E c \in RowsOf(n) : Insert(n, c)
         \/ \E n \in Names : \E pos \in SUBSET (1..MaxRows) : Delete(n, pos)
 Spec == Init /\ [][Next]_vars
 
-IntegrityInv == Integrity(Meta, db)
+IntegrityInv == Integrity(Meta, db) /\ NotNullOK(Meta, db)
 UniqueInv == AllUnique(Meta, db)
 IdsInv == \A n \in Names : \A i, j \in 1..Len(db[n]) :
              /\ (Tbl(Meta, n).primary => db[n][i].id < next[n] /\ db[n][i].id >= 1)
